@@ -103,13 +103,22 @@ Fixpoint pinsrc_f (cs : list clock) (fuel : nat) (i : nat) : nat :=
   else i.
 Definition pinsrc (cs : list clock) (i : nat) : nat := pinsrc_f cs (length cs) i.
 
-(* Clock::inheritsResetPinSource / getResetPinSource (nullptr = None) *)
+(* Clock::inheritsResetPinSource / getResetPinSource (nullptr = None):
+     own reset type NONE -> no reset pin;  no parent -> self;
+     parent's reset type NONE -> self ("a parent without reset has no reset pin to inherit", repair dd54172;
+       before it such a derived clock got a null reset pin source);
+     (not self-driven -> self: logic-driven resets are not modelled);  reset names differ -> self;
+     otherwise the parent's source *)
 Definition inherits_rst (cs : list clock) (i : nat) : bool :=
   let c := get_clock cs i in
   match ck_rst c, ck_parent c with
   | RST_NONE, _ => false
   | _, None => false
-  | _, Some p => N.eqb (ck_rstname (get_clock cs p)) (ck_rstname c)
+  | _, Some p =>
+    match ck_rst (get_clock cs p) with
+    | RST_NONE => false
+    | _ => N.eqb (ck_rstname (get_clock cs p)) (ck_rstname c)
+    end
   end.
 Fixpoint rstsrc_f (cs : list clock) (fuel : nat) (i : nat) : option nat :=
   let c := get_clock cs i in
